@@ -273,6 +273,10 @@ def edge_inputs():
         for b in alnum:
             yield (b"&#x%c%c;" % (a, b)) * 5
             yield b"&#65;&#66;&#67;&#68;" + (b"&#X%c%c;" % (a, b))
+    for n in range(0, 256):
+        yield (b"&#%03d;" % n) * 5
+        if n < 100:
+            yield b"&#65;&#66;&#67;&#68;" + (b"&#%02d;" % n)
     prefixes = [b"C:\\", b"\\\\host.com\\", b"\\\\?\\", b"\\\\.\\", b"\\\\?\\UNC\\", b"\\\\.\\UNC\\", b"\\\\?\\C:\\", b"\\\\?\\UNC\\host.com\\", b"\\", b"", b"D:", b"\\\\.\\UNC\\1.2.3.4\\", b"\\\\h@SSL@443\\"]
     segs = [b"abc\\", b"..\\", b".\\", b"x.y\\", b"UNC\\", b"...\\"]
     names = [b"abc", b"...", b"a.exe", b"..."]
